@@ -16,7 +16,10 @@ from vlib import enc_str, enc_list, dec_list, dec_str
 
 THEOREMS = ["C02_single", "C02_spread", "C02_words", "C02_spread_words", "C02_bind", "C02_count",
             "C02_count_templates", "C02_KF1_quote_refuted", "C02_KF1_open_quote_refuted",
-            "C02_hash_example", "C02_KF3_esc_pct_refuted", "C02_KF3_esc_bs_refuted", "C02_nonvacuous"]
+            "C02_hash_example", "C02_KF3_esc_pct_refuted", "C02_KF3_esc_bs_refuted", "C02_nonvacuous",
+            # index-faithful model (ExpansionIx.v over ParserIx.v): explicit Panic, never taken, equals the suffix model
+            "C02_ix_total", "C02_ix_refines"]
+IX_THEOREMS = ["C02_ix_bind_total", "C02_ix_bind_refines"]      # props/C02ix.v
 
 NAMES4 = ["v", "w", "a%b", ""]
 NAMES = NAMES4 + ["x$y", "p\\q", "é", "n{m", "a\"b", "#h", "a.b", "1", "${v", "\\"]
@@ -143,8 +146,10 @@ def replay(ck, data):
 
 def run(ck):
     ck.gen_from_source()
-    ck.coq_build(["props/C02.vo", "extract/C02_extract.vo"])
-    ck.print_assumptions(["DSP.C02"], ["DSP.C02." + t for t in THEOREMS])
+    ck.coq_build(["props/C02.vo", "props/C02ix.vo", "extract/C02_extract.vo"])
+    ck.print_assumptions(["DSP.C02", "DSP.C02ix"], ["DSP.C02." + t for t in THEOREMS] + ["DSP.C02ix." + t for t in IX_THEOREMS])
+    ck.source_tie("expand")
+    ck.source_tie("parser")
     ck.hygiene()
     ck.ocaml_build()
     ck.harness_build(["c02"])
@@ -266,6 +271,13 @@ def run(ck):
     if model_ok:
         m_out = [o.split("\t") for o in ck.model(lines)]
         bad_model = [k for k, f in enumerate(m_out) if len(f) != 6 or f[5] == "INCONSISTENT"]
+        # the model column is the index-faithful binder's; PANIC / IXDIFF contradict C02_ix_bind_total / _refines
+        ck.obligations.append("index-faithful binder: no Panic and equal to the suffix model on every case (C02_ix_bind_total, C02_ix_bind_refines)")
+        ix_bad = [k for k, f in enumerate(m_out) if len(f) == 6 and f[1] in ("PANIC", "IXDIFF")]
+        if ix_bad:
+            ck.broken.append("index-faithful binder answers %s on %s" % (m_out[ix_bad[0]][1], lines[ix_bad[0]]))
+        else:
+            ck.discharged.append("index-faithful binder: no Panic, equal to the suffix model")
         if bad_model:
             ck.broken.append("model driver: unexpected output on %s -> %r" % (lines[bad_model[0]], m_out[bad_model[0]]))
             m_out = [f if len(f) == 6 else ["-", "-", "-", "F", "F", "-"] for f in m_out]
@@ -278,6 +290,20 @@ def run(ck):
         xm = ck.model(x_lines)
         xi = ck.impl(["R\t%s\t%s" % (ln.split("\t")[1], ln.split("\t")[2]) for ln in x_lines])
         off_agree = sum(1 for a, b in zip(xm, xi) if "A" + a == b)
+        x_bad = [k for k, a in enumerate(xm) if a in ("PANIC", "IXDIFF")]
+        if x_bad:      # raw texts are outside the binding theorems' domain but inside C02_ix_total's (any string)
+            ck.broken.append("index-faithful binder answers %s on raw text %s" % (xm[x_bad[0]], x_lines[x_bad[0]]))
+        # C02_ix_total / C02_ix_bind_total have no exceptions: a panic of the real binder on ANY written argument
+        # (in-domain, known class, off-domain raw text) is a violation
+        panics = [(r_lines[k], o) for k, o in enumerate(i_out) if o == "PANIC" or o.startswith("DIED")] + \
+                 [("R\t%s\t%s" % (x_lines[k].split("\t")[1], x_lines[k].split("\t")[2]), b)
+                  for k, b in enumerate(xi) if b == "PANIC" or b.startswith("DIED")]
+        for (rl, o) in panics[:3]:
+            found = True
+            ck.violation({"kind": "implementation panics while binding (the index-faithful model proves no panic for any written argument)",
+                          "written_arguments": dec_list(rl.split("\t")[2]), "env": rl.split("\t")[1], "implementation": o,
+                          "wire": rl, "seed": ck.seed, "theorems": ["C02_ix_total", "C02_ix_bind_total"],
+                          "replay_cmd": "printf '%s\\n' | .cache/cargo-target/release/c02" % rl.replace("\t", "\\t")})
 
         dist = {"tags": {}, "classes": {}, "spec_branch": {}, "args": {}, "pieces": {}}
         nontriv = set()
@@ -382,6 +408,8 @@ def run(ck):
             "exhaustive_part": n_exh,
             "samples": [show(*cases[k][:2]) for k in (0, n0 + 5000, len(cases) - 1) if k < len(cases)],
             "distribution": dist,
+            "model_run": "index-faithful ExpansionIx.bind_args_ix (re-parse of spread values on the index-faithful parser, explicit "
+                         "Panic) — cross-checked per case against the suffix model Expansion.bind_args; also on the off-domain raw texts",
         })
     else:
         ck.coverage.update({"evaluations": 0, "distinct_nontrivial": 0, "rule": "model did not build", "samples": []})
